@@ -54,6 +54,14 @@ def matrices(draw, min_bins=6, max_bins=24, max_chroms=4):
         A[i, :] = 0
         A[:, i] = 0
         A[i, i] = d
+    # sometimes one of the two parts of the matrix holds no data at all: only intra-chromosomal contacts (a trans-only
+    # run is then left with nothing) or only inter-chromosomal ones (nothing for a cis-only run)
+    part = draw(st.sampled_from([None] * 10 + ["cis", "trans"])) if nch >= 2 else None
+    if part:
+        same = np.zeros((n, n), dtype=bool)
+        for lo, hi in zip(offsets[:-1], offsets[1:]):
+            same[lo:hi, lo:hi] = True
+        A[~same if part == "cis" else same] = 0
     rows = [[int(i), int(j), int(A[i, j])] for i, j in zip(*iu) if A[i, j]]
     return {"sizes": sizes, "offsets": offsets, "rows": rows, "n": n}
 
@@ -337,6 +345,12 @@ def check_cli(case, ctx: Ctx):
         if case.get("ignore_dist") is not None:
             args += ["--ignore-dist", case["ignore_dist"]]
             o["ignore_diags"] = max(o["ignore_diags"], -(-case["ignore_dist"] // 10))
+        if case.get("header"):
+            # history: the file already carries a weight column from a much stricter run (most bins masked); the run
+            # under test replaces it with --force and owes nothing to it
+            rc0, _, exc0 = run_cli(["balance", path, "--min-nnz", max(2, n // 2), "--mad-max", 1, "--max-iters", 3])
+            check(rc0 == 0 and exc0 is None, f"cooler balance (earlier, stricter run) failed: exit {rc0} {exc0!r}")
+            args.append("--force")
         rc, _, exc = run_cli(args)
         check(rc == 0 and exc is None, f"cooler balance --blacklist failed: exit {rc} {exc!r}")
         w = cooler.Cooler(path).bins()["weight"][:].to_numpy(dtype=float)
